@@ -12,4 +12,4 @@ Extraction "model.ml"
   api_parse_header api_parse_start api_parse_event api_parse_metadata api_rd_exact api_state_version
   api_frame_view api_arrow_frame api_slpp_archive api_entry_names
   api_step_give api_step_interrupt api_step_fault api_rexact api_read_sched
-  api_mk_irreg api_emit_irr api_wf_irreg2_b.
+  api_mk_irreg api_emit_irr api_wf_irreg2_b api_in_class.
